@@ -87,7 +87,7 @@ def main(argv):
     if ck.replay:
         hs = [read_replay(ck.replay)]
     else:
-        n = 1500 if ck.tier == "quick" else 8000
+        n = 1500 if ck.tier == "quick" else 15000
         hs = CORPUS + [gen_history(ck.rng, ck.tier == "thorough") for _ in range(n)]
     ck.correspond(hb, db, hs, label="json", ubsan_is_violation=r"types/json\.|types/primitive\.|utils/lex\.|utils/string\.")
     c = ck.cov["counters"]
